@@ -269,6 +269,43 @@ pub fn build(tier: Tier) -> Check<'static> {
         }));
     }
     {
+        // allow_incomplete = true: the same transparency (kept directives next to comments are where the
+        // in_directive bit of the memo key matters)
+        let pol: Vec<Policy> = policies(Tier::Quick).into_iter().chain([Policy::Fifo(Some(1)), Policy::Fifo(Some(8)), Policy::Fifo(Some(16))]).collect();
+        let directives: Vec<&'static str> = vec!["`default_nettype none", "`timescale 1ns/1ps", "`celldefine", "`resetall", "`line 1 \"f\" 0", "`pragma p", "`unconnected_drive pull0", "`begin_keywords \"1800-2017\""];
+        let tails: Vec<&'static str> = vec![" // c\n", " /* c */\n", "\n// c\n", "\n"];
+        let n = directives.len() * tails.len() * 3;
+        c.parts.push(Part::new("incomplete-mode", n as u64, "8 kept directives x 4 ways to follow them with a comment x 3 places (before, inside, behind a module with comments) parsed with allow_incomplete = true under 7 memo policies: the tree must equal the one with an unbounded table", move |i, acc| {
+            let i = i as usize;
+            let d = directives[i / (tails.len() * 3)];
+            let t = tails[(i / 3) % tails.len()];
+            let src = match i % 3 {
+                0 => format!("{}{}module m; // c1\nwire w; /* c2 */\nendmodule\nmodule n; endmodule\n", d, t),
+                1 => format!("module m; // c1\n{}{}wire w; /* c2 */\nendmodule\nmodule n; endmodule\n", d, t),
+                _ => format!("module m; // c1\nwire w; /* c2 */\nendmodule\n{}{}module n; endmodule\n", d, t),
+            };
+            let run = |p: Policy| api::with_policy(p, false, || match api::parse_simple(&src, false, true) {
+                Err(pn) => format!("PANIC {}", pn),
+                Ok(Err(e)) => format!("ERR {}", err_sig(&e)),
+                Ok(Ok((t, _))) => format!("OK {}", tree::skeleton_full(&t)),
+            });
+            let (reference, _) = run(Policy::Fifo(None));
+            acc.transitions += 1;
+            acc.nontrivial += 1;
+            for p in &pol {
+                let (got, _) = run(*p);
+                acc.transitions += 1;
+                acc.traces += 1;
+                if got != reference {
+                    acc.class("violation");
+                    acc.violation(None, json!({"source": src, "policy": policy_name(p), "allow_incomplete": true}), format!("allow_incomplete = true: with memo policy {} the result is\n  {}\nwith an unbounded table it is\n  {}\nsource: {:?}", policy_name(p), clip(&got, 200), clip(&reference, 200), src));
+                    return;
+                }
+            }
+            acc.class("same-result");
+        }));
+    }
+    {
         // what one entry-point call leaves in the table must not reach the next call: two raw parser
         // calls on texts at ONE address, the policy chosen once before the pair
         let pol = Arc::new(policies(Tier::Quick));
